@@ -15,7 +15,7 @@ RULE = {
            "A case is non-trivial when the message has >=2 bytes and is not all zero; distinct = distinct message hash "
            "(+ error pattern for 'detect')."
 }
-REQUIRED = {"C20": {"pair-transition": 65536, "random-message": 500,
+REQUIRED = {"C20": {"pair-transition": 65536, "random-message": 500, "same-object-rechecked": 1000, "nested-call": 200,
                     "linearity-pair": 200, "single-bit": 500, "double-bit": 5000, "burst": 2000}}
 ASSUMPTIONS = {"C20": ["reference CRC is a 12-line bit-serial shift register written from the statement, "
                        "checked in setup self-test against the navX protocol example vectors"]}
@@ -36,11 +36,12 @@ def ref_crc7(data) -> int:
 def shards(pid, tier, seed):
     if tier == "quick":
         return [{"mode": "pairs"}, {"mode": "fold", "n": 300},
-                {"mode": "random", "n": 4000}, {"mode": "linear", "n": 2000},
+                {"mode": "random", "n": 4000}, {"mode": "linear", "n": 2000}, {"mode": "inplace", "n": 1500},
                 {"mode": "detect", "lens": list(range(1, 13)), "rand": 300}]
     out = [{"mode": "pairs"}, {"mode": "fold", "n": 3000}]
     out += [{"mode": "random", "n": 40000} for _ in range(5)]
     out += [{"mode": "linear", "n": 40000} for _ in range(2)]
+    out += [{"mode": "inplace", "n": 40000} for _ in range(2)]
     lens = list(range(1, 41))
     for i in range(8):
         out.append({"mode": "detect", "lens": lens[i::8], "rand": 3000})
@@ -169,6 +170,8 @@ def run_case(acc, crc7mod, case):
         if crc7(msg) == crc7(_flip(msg, bits)):
             acc.violation("C20/undetected-error", f"flipping bits {bits} leaves the checksum unchanged",
                           case, {"crc": crc7(msg)})
+    elif mode == "inplace":
+        run_inplace(acc, crc7mod, case)
     elif mode == "fold":
         msg = bytes(case["msg"])
         got, ok, nobs, states = _fold_probe(acc, crc7mod, msg)
@@ -186,6 +189,41 @@ def run_case(acc, crc7mod, case):
             acc.ev("fold-structure-confirmed")
         else:
             acc.ev("fold-structure-differs(observation)")
+
+
+def run_inplace(acc, crc7mod, case):
+    """The same bytearray / list object is checksummed, changed in place, and checksummed again (a protocol buffer
+    that is re-used for every message); optionally the data iterator itself calls crc7() on another message."""
+    crc7 = crc7mod.crc7
+    buf = bytearray(case["msg"]) if case["container"] == "bytearray" else list(case["msg"])
+    acc.evaluations += 1
+    for step in case["steps"]:
+        if step[0] == "flip":
+            buf[step[1] >> 3] ^= 1 << (step[1] & 7)
+        elif step[0] == "nested":
+            other = bytes(step[1])
+
+            def gen(b=tuple(buf), other=other):
+                for i, x in enumerate(b):
+                    if i == len(b) // 2:
+                        crc7(other)          # a second checksum computed while this one is in progress
+                    yield x
+            got = crc7(gen())
+            acc.checks += 1
+            acc.ev("nested-call")
+            if got != ref_crc7(buf):
+                acc.violation("C20/reentrant", "crc7() of an iterable whose iteration computes another crc7() differs from the bit-serial CRC-7",
+                              case, {"got": got, "expected": ref_crc7(buf)})
+                return
+            continue
+        got = crc7(buf)
+        acc.checks += 1
+        acc.ev("same-object-rechecked")
+        if got != ref_crc7(buf):
+            acc.violation("C20/stale-after-in-place-change", "crc7() of a buffer object that was changed in place since its last checksum "
+                          "differs from the bit-serial CRC-7", case, {"got": got, "expected": ref_crc7(buf)})
+            return
+    acc.nontrivial.add(stable_hash(["inplace", case["msg"], case["steps"]]))
 
 
 def run_shard(spec):
@@ -246,6 +284,17 @@ def run_shard(spec):
             acc.ev("container-" + c)
             if i < 2:
                 acc.samples.append({"mode": "random", "len": n, "container": c, "head": list(msg[:8]), "crc7": crc7(msg)})
+    elif mode == "inplace":
+        for i in range(spec["n"]):
+            n = rng.choice([1, 2, 6, 20, rng.randrange(1, 120)])
+            steps = [["sum"]]
+            for _ in range(rng.choice([1, 3, 6])):
+                steps.append(rng.choice([["flip", rng.randrange(8 * n)], ["flip", rng.randrange(8 * n)], ["sum"],
+                                         ["nested", list(rng.randbytes(rng.randrange(1, 9)))]]))
+            case = {"mode": "inplace", "msg": list(rng.randbytes(n)), "container": rng.choice(["bytearray", "list"]), "steps": steps}
+            run_case(acc, crc7mod, case)
+            if i == 0:
+                acc.samples.append(case)
     elif mode == "linear":
         for i in range(spec["n"]):
             n = rng.choice([1, 2, 5, 16, rng.randrange(1, 200)])
